@@ -19,6 +19,7 @@ type Features struct {
 	NumericCaprefs, RedundantParens                     bool
 	FloatKeys, MetricReads, StringConcat                bool
 	PinTypes                                            bool // every metric gets a write with an operand of concrete type
+	NoRecursiveDecorators                               bool // a decorator is not used inside its own decorated block
 	OnePatternPerCond                                   bool // at most one pattern (line pattern or match operator) per condition
 	NoMixedMetricReads                                  bool // no metric reads inside mixed Int/Float arithmetic or comparisons
 	MaxStmts, MaxDepth, MaxExprDepth                    int
@@ -47,20 +48,21 @@ type capRef struct {
 
 // G is the generator state for one program.
 type G struct {
-	t        *rapid.T
-	F        Features
-	P        *Program
-	nextCap  int
-	nextPat  int
-	scope    []capRef
-	patsVis  int
-	written  map[string]bool
-	used     map[string]bool
-	stmts    int
-	Patterns []*Pattern // line patterns, for the line generator
-	Classes  map[string]bool
-	inKey    int
-	condPats int // patterns used so far in the condition being generated
+	t          *rapid.T
+	F          Features
+	P          *Program
+	nextCap    int
+	nextPat    int
+	scope      []capRef
+	patsVis    int
+	written    map[string]bool
+	used       map[string]bool
+	stmts      int
+	Patterns   []*Pattern // line patterns, for the line generator
+	Classes    map[string]bool
+	inKey      int
+	condPats   int // patterns used so far in the condition being generated
+	decoActive map[string]int
 }
 
 func (g *G) class(c string) { g.Classes[c] = true }
@@ -75,7 +77,7 @@ func pick[T any](g *G, label string, xs []T) T {
 
 // GenProgram draws a program.
 func GenProgram(t *rapid.T, f Features) *G {
-	g := &G{t: t, F: f, P: &Program{}, written: map[string]bool{}, used: map[string]bool{}, Classes: map[string]bool{}}
+	g := &G{t: t, F: f, P: &Program{}, written: map[string]bool{}, used: map[string]bool{}, Classes: map[string]bool{}, decoActive: map[string]int{}}
 	g.genDecls()
 	if f.Consts && g.chance("hasconst", 30) {
 		n := 1 + g.intn("nconst", 2)
@@ -650,7 +652,7 @@ func (g *G) genBlock(depth, n int, ctx blockCtx) []*Stmt {
 			}
 			hadCond = true
 			out = append(out, c)
-		case k == 13 && g.F.Otherwise && !hadElseCond && !ctx.noOtherwise && (!ctx.inElse || g.F.OtherwiseInElse || hadCond):
+		case k == 13 && g.F.Otherwise && !hadElseCond && !ctx.noOtherwise && (!ctx.inElse || g.F.OtherwiseInElse):
 			// `otherwise` never follows a conditional-with-else in the same block
 			if ctx.inElse && !hadCond {
 				g.class("otherwise-first-in-else")
@@ -687,6 +689,14 @@ func (g *G) genBlock(depth, n int, ctx blockCtx) []*Stmt {
 			out = append(out, &Stmt{Op: "stop"})
 		case k == 16 && g.F.Decorators && len(g.P.Decos) > 0 && depth < g.F.MaxDepth:
 			d := pick(g, "usedeco", g.P.Decos)
+			if g.decoActive[d.Name] > 0 {
+				if g.F.NoRecursiveDecorators {
+					out = append(out, g.genWrite(pick(g, "wmetric5", g.P.Metrics)))
+					break
+				}
+				g.class("decorator-nested-in-itself")
+			}
+			g.decoActive[d.Name]++
 			g.used[d.Name] = true
 			save, savePats := g.scope, g.patsVis
 			condBeforeNext := false
@@ -695,6 +705,7 @@ func (g *G) genBlock(depth, n int, ctx blockCtx) []*Stmt {
 			}
 			g.patsVis += 2 // only named references reach into a decorated block
 			body := g.genBlock(depth+1, 1+g.intn("dbody", 2), blockCtx{noOtherwise: true})
+			g.decoActive[d.Name]--
 			g.scope, g.patsVis = save, savePats
 			g.class("decorator-use")
 			out = append(out, &Stmt{Op: "deco", Deco: d.Name, Then: body})
